@@ -105,6 +105,8 @@ def _o_c03(rng, c, variant):
         return {"numh": rng.choice(["int", "float"])}
     if variant == 2 and c.get("ndata", 2) >= 2:
         return {"gby": rng.choice([2, 3])}
+    if variant == 3:
+        return {"tcv": True}
     return {}
 
 
@@ -161,12 +163,12 @@ PROPS = {
                    # heights from a numeric column / a wrapping group_by label (variants 1, 2)
                    dict(consts=C(NSet={7, 12, 20}, Heights={1, 2, 3, 4}, NrowSet={5, 8, 13, 21}, Strategies=S3,
                                  LevelSet={1, 2}, HdrSet={"none", "default", "explicit"}, FootSet={"none", "table"},
-                                 NewPageSet=NP, PbRowSet=PR, PlaceSet={"last", "all"}, NDataSet={2, 3}), simulate=250, variants=3)],
+                                 NewPageSet=NP, PbRowSet=PR, PlaceSet={"last", "all"}, NDataSet={2, 3}), simulate=250, variants=4)],
             thorough=[dict(consts=C(NSet={4}, Heights={1, 2, 3}, NrowSet={3, 4, 6}, Strategies=S3, LevelSet={1, 2},
                                     HdrSet={"none", "default", "explicit"}, FootSet={"none", "table"}, NewPageSet=NP, PbRowSet=PR, PlaceSet={"all"})),
                       dict(consts=C(NSet={7, 12, 20, 35}, Heights={1, 2, 3, 4}, NrowSet={5, 8, 13, 21, 34}, Strategies=ALL_STRAT,
                                     LevelSet={1, 2}, HdrSet={"none", "default", "explicit"}, FootSet={"none", "table"},
-                                    NewPageSet=NP, PbRowSet=PR, PlaceSet={"last", "all"}, NDataSet={2, 3}), simulate=3000, variants=3),
+                                    NewPageSet=NP, PbRowSet=PR, PlaceSet={"last", "all"}, NDataSet={2, 3}), simulate=3000, variants=4),
                       dict(consts=C(NSet={4}, Heights={1, 2}, NrowSet={3, 4, 6}, Strategies={"pageby"}, LevelSet={1},
                                     HdrSet={"none", "default", "explicit"}, FootSet={"none", "table"}, NewPageSet=NP, PbRowSet=PR, PlaceSet={"all"},
                                     DivSet={"resume", "second"})),
@@ -344,7 +346,7 @@ def _scenarios(ctx, work, spec, tier, rng):
                 if g.get("prefixes") and rng.random() < g["prefixes"] and s["cfg"]["n"] >= 2:
                     o = dict(o)
                     o["prefixes"] = True
-                out.append({"c": s["cfg"], "o": o, "pred": s["out"] if not (o.get("texts") or o.get("numh") or o.get("gby")) else None})
+                out.append({"c": s["cfg"], "o": o, "pred": s["out"] if not (o.get("texts") or o.get("numh") or o.get("gby") or o.get("tcv")) else None})
     for i, s in enumerate(out):
         s["id"] = i
     return out
